@@ -1,15 +1,19 @@
 (** C01 — POP state depends only on the applied chain, not on history. Closed, instantiated machine.
 
-    FULL statement aimed at: history_independence : two op histories ending with the same active chain give the same P
-    (and the same verdicts / payouts, which are functions of P and the chain).
-    PROVED: applied_canonical for EVERY reachable state (all trees, payload assignments, failing positions, scorers,
-    histories): P = bootstrap state + exactly the effects of the blocks flagged applied, as a multiset (reference
-    counts and endorsement multiset); hence two histories whose applied blocks carry the same payloads end with equal
-    reference counts and endorsements — in particular the fresh instance shown only the final chain.
-    GAP (hence _partial): "blocks flagged applied = root..tip between calls" (see Properties_C02.v); verdict and payout
-    equality are checked on the implementation by the twin oracle, not proved (scoring is property C03). *)
+    PROVED:
+      * C01_applied_canonical, for EVERY reachable state (all trees, payload assignments, failing positions, scorers,
+        histories incl. comparisons): P = bootstrap state + exactly the effects of the blocks flagged applied, as a
+        multiset (reference counts and endorsement multiset) - nothing of an abandoned or rolled-back fork is left;
+      * C01_history_independence: two histories of connectBlock / setState calls (any order of bodies, any forks
+        activated and abandoned, any failing switches, back and forth) that end with the same active chain - the same
+        payloads on root..tip - end with the same reference count for every SP block and the same endorsements; the
+        fresh instance shown only the final chain is one such history.
+    GAP (hence _partial): for histories that also contain comparePopScore the statement is proved relative to the set
+      of blocks flagged applied (C01_history_independence_partial), not yet relative to the active chain (needs the
+      quiet invariant through comparePopScore, see Properties_C02.v). Verdict and payout equality are checked on the
+      implementation by the twin oracle, not proved (scoring is property C03). *)
 From Coq Require Import List ZArith NArith Bool Permutation.
-From VB Require Import Pop.SmDefs Pop.SmProofs.
+From VB Require Import Pop.SmDefs Pop.SmProofs Pop.SmWf.
 
 Theorem C01_cmd_unexec_exec :
   forall c p p', cexec c p = Some p' -> cunexec c p' = p.
@@ -33,3 +37,17 @@ Print Assumptions C01_history_independence_partial.
 Theorem C01_nonvacuous : exists s, reachable ex_base s /\ tip _ _ s = 6%N.
 Proof. exact ex_reachable. Qed.
 Print Assumptions C01_nonvacuous.
+
+Theorem C01_active_items_chain :
+  forall s, quiet s -> Permutation (active_items (blocks _ _ s)) (flat_map block_items (chain_gs s)).
+Proof. exact active_items_chain. Qed.
+Print Assumptions C01_active_items_chain.
+
+Theorem C01_history_independence :
+  forall base r1 h1 ops1 s1 r2 h2 ops2 s2,
+    no_compare ops1 -> no_compare ops2 ->
+    run (c_init r1 h1 base) ops1 = Ok s1 -> run (c_init r2 h2 base) ops2 = Ok s2 ->
+    chain_gs s1 = chain_gs s2 ->
+    Permutation (pst _ _ s1) (pst _ _ s2) /\ (forall x, count_ref x (pst _ _ s1) = count_ref x (pst _ _ s2)).
+Proof. exact history_independence_chain. Qed.
+Print Assumptions C01_history_independence.
